@@ -399,6 +399,70 @@ fn aliased_queries(ev: &mut Ev) {
     }
 }
 
+/// Axes whose span is not representable: sentinel knots at +-MAX, an open-ended last (or first)
+/// knot at +-inf. Only the accept / reject decision is judged here: a query is answered iff it
+/// lies in the closed range (values next to an infinite knot are not numbers one could check).
+fn overflowing_spans(ev: &mut Ev) {
+    use vh::ndarray::{Array1, Array2};
+    use vh::ndarray_interp::interp1d::{Interp1D, Linear};
+    use vh::ndarray_interp::interp2d::Interp2D;
+    let m = f64::MAX;
+    let inf = f64::INFINITY;
+    let axes: Vec<Vec<f64>> = vec![
+        vec![-m, -1.0, 0.5, 3.0, m],
+        vec![-m, 0.0, m],
+        vec![0.0, 1.0, 2.0, inf],
+        vec![-inf, -2.0, 0.0, 4.0],
+        vec![-inf, 0.0, inf],
+        vec![-m, m],
+        vec![-1.0e308, 1.0e308, 1.5e308],
+        vec![0.0, 1.0, 2.0, 3.0],
+    ];
+    let mut id = 8_500_000u64;
+    for ax in &axes {
+        let n = ax.len();
+        let (lo, hi) = (ax[0], ax[n - 1]);
+        let mut qs: Vec<f64> = ax.clone();
+        for w in ax.windows(2) {
+            let mid = w[0] / 2.0 + w[1] / 2.0;
+            if mid.is_finite() {
+                qs.push(mid);
+            }
+        }
+        qs.extend([0.25, -0.25, 1.0e300, -1.0e300, m, -m, inf, -inf, f64::NAN]);
+        let x = Array1::from(ax.clone());
+        let d1 = Array1::from((0..n).map(|i| i as f64).collect::<Vec<_>>());
+        let lin = Interp1D::builder(d1.clone()).x(x.clone()).strategy(Linear::new()).build().unwrap();
+        let y = Array1::from(vec![0.0, 1.0, 2.0]);
+        let g = Array2::from_shape_fn((n, 3), |(i, j)| (i + j) as f64);
+        let bx = Interp2D::builder(g.clone()).x(x.clone()).y(y.clone()).build().unwrap();
+        let by = Interp2D::builder(g.t().to_owned()).x(y.clone()).y(x.clone()).build().unwrap();
+        for &q in &qs {
+            id += 1;
+            let inside = q >= lo && q <= hi;
+            let mut judge = |what: &str, answered: Result<bool, String>, ev: &mut Ev| {
+                ev.add("overflowing_span_queries", 1);
+                if answered != Ok(inside) {
+                    ev.violation(
+                        if inside { "C05:in-range-query-rejected" } else { "C05:out-of-range-accepted" },
+                        &format!("{what}, axis {ax:?}, q={q:?}: answered = {answered:?}, q in the closed range = {inside}"),
+                        id,
+                        J::obj().set("axis", format!("{ax:?}")).set("q", format!("{q:?}")),
+                    );
+                }
+            };
+            judge("Linear interp_scalar", vh::outcome::guard(|| lin.interp_scalar(q).is_ok()), ev);
+            judge("Linear is_in_range", vh::outcome::guard(|| lin.is_in_range(q)), ev);
+            judge("Linear interp_array", vh::outcome::guard(|| lin.interp_array(&Array1::from(vec![q, q])).is_ok()), ev);
+            judge("Bilinear (x axis) interp_scalar", vh::outcome::guard(|| bx.interp_scalar(q, 1.5).is_ok()), ev);
+            judge("Bilinear is_in_x_range", vh::outcome::guard(|| bx.is_in_x_range(q)), ev);
+            judge("Bilinear (y axis) interp_scalar", vh::outcome::guard(|| by.interp_scalar(0.5, q).is_ok()), ev);
+            judge("Bilinear is_in_y_range", vh::outcome::guard(|| by.is_in_y_range(q)), ev);
+            judge("Bilinear (y axis) interp_array", vh::outcome::guard(|| by.interp_array(&Array1::from(vec![0.5, 2.0]), &Array1::from(vec![q, q])).is_ok()), ev);
+        }
+    }
+}
+
 fn main() {
     let args = Args::parse("C05");
     let n = args.budget(300, 30000);
@@ -429,6 +493,7 @@ fn main() {
     let mut ev = ev;
     if args.only.is_none() && args.shard == 0 {
         aliased_queries(&mut ev);
+        overflowing_spans(&mut ev);
     }
     ev.add("strategy_entry_pairs", fams.len() as u64);
     ev.add("strategy_entry_pairs_with_accept_and_reject", both as u64);
